@@ -28,6 +28,8 @@ type Engine struct {
 	DB    *samehada.SamehadaDB
 	Name  string
 	MemKB int
+	// LastScans: index range scans of the plan PlanOf described last
+	LastScans []ScanInfo
 }
 
 // Quiet redirects the engine's chatter on stdout to /dev/null (drivers write traces to files).
@@ -164,7 +166,38 @@ func (e *Engine) PlanOf(sql string) (desc string) {
 		plans.PrintPlanTree(p, 0)
 		os.Stdout = old
 	}
+	e.LastScans = scansOf(p, false)
 	return DescribePlan(p)
+}
+
+// ScanInfo describes one index range scan leaf of a plan: the indexed column, the scanned interval
+// (nil = open end) and whether a selection node sits somewhere above it.
+type ScanInfo struct {
+	Col    int
+	Lo, Hi *types.Value
+	Sel    bool
+}
+
+func scansOf(p plans.Plan, underSel bool) []ScanInfo {
+	if p == nil {
+		return nil
+	}
+	if rs, ok := p.(*plans.RangeScanWithIndexPlanNode); ok {
+		si := ScanInfo{Col: int(rs.GetColIdx()), Sel: underSel || rs.GetPredicate() != nil}
+		if lo := rs.GetStartRange(); lo != nil && !lo.IsInfMin() {
+			si.Lo = lo
+		}
+		if hi := rs.GetEndRange(); hi != nil && !hi.IsInfMax() {
+			si.Hi = hi
+		}
+		return []ScanInfo{si}
+	}
+	_, isSel := p.(*plans.SelectionPlanNode)
+	out := []ScanInfo{}
+	for _, c := range p.GetChildren() {
+		out = append(out, scansOf(c, underSel || isSel)...)
+	}
+	return out
 }
 
 var planNames = map[plans.PlanType]string{}
